@@ -233,6 +233,18 @@ pub fn nonreduced_blocks(len: usize) -> Vec<(&'static str, Vec<u8>)> {
     v.push(("modulus_plus_2^32", addsub_pow2(&m, 32, false)));
     v.push(("modulus_plus_2^64", addsub_pow2(&m, 64, false)));
     v.push(("modulus_plus_2^128", addsub_pow2(&m, 128, false)));
+    // the modulus with one 64-bit limb below the top one set to all ones (a borrow/carry chain that meets
+    // an all-ones limb)
+    for (name, limb) in [("modulus_limb1_all_ones", 1usize), ("modulus_limb2_all_ones", 2)] {
+        let mut x = m.clone();
+        let n = x.len();
+        for b in x[n - 8 * (limb + 1)..n - 8 * limb].iter_mut() {
+            *b = 0xff;
+        }
+        if x > m {
+            v.push((name, x));
+        }
+    }
     if len == 32 {
         let mut x = vec![0xffu8; 32];
         x[0] = 0x7f; // 2^255 - 1
@@ -356,6 +368,21 @@ pub fn sweep(values_per_type: usize) -> (Vec<IoPlan>, Vec<(String, usize)>) {
                     }
                 }
                 dim("read_eintr_every_call", b, &plans);
+
+                // (c2) the caller's reader / writer uses the library itself (nested round trip) before a
+                // transfer: at the first call and after a partial transfer
+                let b = plans.len();
+                for pre in [vec![], vec![Act::Short(1)], vec![Act::Short(7), Act::Short(9)]] {
+                    let mut p = single(ty, c, v, "read_reenter");
+                    p.rscript = pre.clone();
+                    p.rscript.push(Act::Reenter);
+                    plans.push(p);
+                    let mut p = single(ty, c, v, "write_reenter");
+                    p.wscript = pre.clone();
+                    p.wscript.push(Act::Reenter);
+                    plans.push(p);
+                }
+                dim("reentrant_stream", b, &plans);
 
                 // (d) every two-chunk split, byte-at-a-time
                 let b = plans.len();
@@ -582,8 +609,9 @@ fn gen_script(rng: &mut Rng, reader: bool, expected_calls: usize, nfaults: usize
     for _ in 0..nfaults {
         let at = rng.below(s.len());
         let k = *rng.pick(&KINDS);
-        let choice = rng.below(5);
+        let choice = if rng.chance(1, 12) { 5 } else { rng.below(5) };
         let act = match choice {
+            5 => Act::Reenter,
             0 if enabled[0] => Act::Short(rng.range(1, 100)),
             1 if enabled[1] && !reader => Act::Zero,
             2 if enabled[2] => Act::Eintr,
